@@ -545,6 +545,9 @@ func (s *simSearchClient) SearchPartitions(ctx context.Context, in *pb.SearchPar
 			if errors.Is(err, errStreamFault) { // the call opens, the failure shows on Recv (as gRPC does)
 				return &fakeClientStream{ctx: ctx, err: err}, nil
 			}
+			if sf, ok := err.(streamFault); ok {
+				return &fakeClientStream{ctx: ctx, err: sf.error}, nil
+			}
 			return nil, err
 		}
 	}
@@ -557,6 +560,9 @@ func (s *simSearchClient) SearchPartitions(ctx context.Context, in *pb.SearchPar
 	// a handler error reaches a gRPC client on Recv, after whatever was sent
 	return &fakeClientStream{ctx: ctx, items: srv.items, err: err}, nil
 }
+
+// streamFault marks an injected error that shows on Recv (the call itself opens)
+type streamFault struct{ error }
 
 var errStreamFault = errors.New("sim: node failed mid-stream")
 var errDialFault = errors.New("sim: node unreachable")
@@ -581,7 +587,7 @@ func (c *simCluster) enableCrashes() {
 		if ctl == nil {
 			return w
 		}
-		return &crashWAL{inner: w, ctl: ctl, gid: id}
+		return &crashWAL{inner: w, ctl: ctl, gid: id, rec: walRecFor(db, id)}
 	}
 	for _, n := range c.nodes {
 		n.ctl = newCrashCtl()
